@@ -130,13 +130,48 @@ func c18rank(p *Prog, r *Report) {
 			}
 		}
 	}
+	// or the append idiom: append(input[:0:0], input...) / append([]T(nil), input...)
+	appendCopy := false
+	if work == nil {
+		for _, b := range fn.Blocks {
+			for _, in := range b.Instrs {
+				c, ok := in.(*ssa.Call)
+				if !ok {
+					continue
+				}
+				bi, isB := c.Call.Value.(*ssa.Builtin)
+				if !isB || bi.Name() != "append" || len(c.Call.Args) != 2 || unwrap(c.Call.Args[1]) != input {
+					continue
+				}
+				zeroCap := false
+				switch d := unwrap(c.Call.Args[0]).(type) {
+				case *ssa.Const:
+					zeroCap = d.IsNil()
+				case *ssa.Slice:
+					if d.Max != nil {
+						if k, okc := intConst(d.Max); okc && k == 0 {
+							zeroCap = true
+						}
+					}
+				case *ssa.MakeSlice:
+					if k, okc := intConst(d.Cap); okc && k == 0 {
+						zeroCap = true
+					}
+				}
+				if zeroCap {
+					work = c
+					appendCopy = true
+				}
+			}
+		}
+	}
 	isWork := func(v ssa.Value) bool {
 		if work == nil {
 			return false
 		}
 		return sameOrigin(v, work) || flowsFrom(v, func(x ssa.Value) bool { return x == unwrap(work) }) || sameSliceVar(v, work)
 	}
-	fresh := work != nil && flowsFrom(work, func(x ssa.Value) bool { _, ok := x.(*ssa.MakeSlice); return ok })
+	fresh := work != nil && (appendCopy || flowsFrom(work, func(x ssa.Value) bool { _, ok := x.(*ssa.MakeSlice); return ok }))
 	r.Check(fresh, rule, "Median:works-on-a-copy", site, fnName(fn), "the input is copied into a fresh slice", "Median does not copy its input into a fresh slice (it would reorder the caller's data, or read an unsorted one)")
 	// no write to / sort of the input itself
 	mut := false
